@@ -127,21 +127,30 @@ Inductive ev := Lookup (t : Z) | Store (t : Z).
 
 Section Cache.
   Variable compute : Z -> rres.
-  Definition cget (cache : list (Z * rres)) (t : Z) : option rres :=
-    match find (fun p => (fst p =? t)%Z) cache with Some p => Some (snd p) | None => None end.
-  (* responses of the lookups, in order *)
-  Fixpoint exec (cache : list (Z * rres)) (evs : list ev) : list (Z * rres) :=
+  (* [keyed = true]: the cache is a map keyed by the full tenant name (m.cache[tenant]).
+     [keyed = false]: entries are found through a slot function of the tenant (e.g. a
+     hash modulo a table size) without comparing the names. *)
+  Variable keyed : bool.
+  Variable slot : Z -> Z.
+  Definition same_key (a b : Z) : bool := if keyed then (a =? b)%Z else (slot a =? slot b)%Z.
+  Definition cget_gen (cache : list (Z * rres)) (t : Z) : option rres :=
+    match find (fun p => same_key (fst p) t) cache with Some p => Some (snd p) | None => None end.
+  (* responses of the lookups, in order; any number of tenants *)
+  Fixpoint exec_gen (cache : list (Z * rres)) (evs : list ev) : list (Z * rres) :=
     match evs with
     | [] => []
     | Lookup t :: r =>
-      (t, match cget cache t with Some x => x | None => compute t end) :: exec cache r
+      (t, match cget_gen cache t with Some x => x | None => compute t end) :: exec_gen cache r
     | Store t :: r =>
       match compute t with
-      | RIdx i => exec ((t, RIdx i) :: cache) r     (* only successful routes are cached *)
-      | RErr => exec cache r
+      | RIdx i => exec_gen ((t, RIdx i) :: cache) r     (* only successful routes are cached *)
+      | RErr => exec_gen cache r
       end
     end.
 End Cache.
+
+(* the cache as the source has it (Gen.C27.cache_key_is_tenant) *)
+Definition exec (compute : Z -> rres) := exec_gen compute cache_key_is_tenant (fun t => t).
 
 (* ---- cases ---- *)
 Inductive query :=
@@ -149,22 +158,30 @@ Inductive query :=
     (firsts : list rres)     (* first answer of several freshly built multi-hashrings *)
     (repeats : list rres).   (* further answers of the first ring: sequential and concurrent callers *)
 
-Inductive case := CRoute (qs : list query).
+Inductive case :=
+| CRoute (qs : list query)
+(* many tenants looked up on ONE multi-hashring instance: number of lookups, number of
+   lookups whose observed ring differs from the first-match route (counted by the harness
+   over all of them), and a sample of the lookups (the first disagreeing one first) *)
+| CHistory (lookups disagreements : nat) (sample : list query).
 
 Definition corr_ok (c : case) : bool :=
   match c with
-  | CRoute qs => forallb (fun q => match q with Q t cfgs firsts repeats =>
+  | CRoute qs | CHistory _ _ qs => forallb (fun q => match q with Q t cfgs firsts repeats =>
       forallb (fun o => existsb (rres_eqb o) (route_poss 0 cfgs t)) (firsts ++ repeats) end) qs
   end.
 
 (* the property on the implementation's observations: the choice is the first
    matching config (or an error when none matches / a pattern is malformed) and it
    never changes across fresh rings, repeated or concurrent requests *)
-Definition pred_ok (c : case) : bool :=
-  match c with
-  | CRoute qs => forallb (fun q => match q with Q t cfgs firsts repeats =>
+Definition pred_qs (qs : list query) : bool := forallb (fun q => match q with Q t cfgs firsts repeats =>
       match firsts with
       | [] => true
       | o :: _ => forallb (rres_eqb o) (firsts ++ repeats) && existsb (rres_eqb o) (route_poss 0 cfgs t)
-      end end) qs
+      end end) qs.
+
+Definition pred_ok (c : case) : bool :=
+  match c with
+  | CRoute qs => pred_qs qs
+  | CHistory _ bad qs => (bad =? 0) && pred_qs qs
   end.
